@@ -343,8 +343,7 @@ def check_dom(ctx, w):
 def check_presence(ctx, w):
     f = w.model.func(EF, 'ELFFile.has_dwarf_info')
     env = expr.FEnv(f.node, params=('strict',))
-    rets = expr.returns_of(f.node)
-    got = expr.cond_tt(rets[0].value, env) if len(rets) == 1 else None
+    got = expr.func_truth_formula(f.node, env)       # over returning paths: one boolean expression or guarded early returns alike
     want = expr.spec_tt("has_section(self, '.debug_info') or has_section(self, '.zdebug_info') or (not strict and has_section(self, '.eh_frame'))")
     eq = False
     if got is not None:
